@@ -5,7 +5,7 @@
     (bp.Snapshots / bp.Cluster / GetRankers around the status: [mnode] is the code as it is, with the
     ranking cut at the in-memory BPCOUNT; F24 repaired), Dpos/Protocol.v. *)
 From Coq Require Import ZArith List Bool.
-From Verif Require Import Dpos.Lib Dpos.LibProofs Dpos.LibOnMain Dpos.LibQuorum Dpos.LibQuorumHist Dpos.LibRestart Dpos.LibExamples Dpos.Election Dpos.ElectionProofs Dpos.ElectionMemProofs Dpos.AgreementLock
+From Verif Require Import Dpos.Lib Dpos.LibProofs Dpos.LibOnMain Dpos.LibQuorum Dpos.LibQuorumHist Dpos.LibRestart Dpos.LibExamples Dpos.Election Dpos.ElectionProofs Dpos.ElectionMemProofs Dpos.AgreementLock Dpos.LibFail Dpos.LibFailProofs Dpos.LibLpb Dpos.AgreementObstacles
   Dpos.Protocol Dpos.ProtocolInv Dpos.ProtocolProofs.
 Import ListNotations.
 Open Scope Z_scope.
@@ -68,6 +68,47 @@ Theorem C08_lib_advances_on_one_branch : forall size self evs1 evs2,
   lib_no nd1 <= lib_no nd2.
 Proof. exact lib_advances_on_one_branch. Qed.
 Print Assumptions C08_lib_advances_on_one_branch.
+
+(** * Blocks that fail when executed (chain.executeBlock error path: Update(best block)) *)
+
+(** Without failing blocks the extended model is [deliver]. *)
+Theorem C08_deliver_f_no_bad : forall nd blk,
+  deliver_f (fun _ => false) nd blk = (fst (deliver nd blk), FO (snd (deliver nd blk))).
+Proof. exact deliver_f_no_bad. Qed.
+Print Assumptions C08_deliver_f_no_bad.
+
+(** With failing blocks a delivery still never lowers the LIB and never replaces a main-chain
+    block at or below it. *)
+Theorem C08_deliver_f_lib_mono : forall bad nd blk, lib_no nd <= lib_no (fst (deliver_f bad nd blk)).
+Proof. exact deliver_f_lib_mono. Qed.
+Print Assumptions C08_deliver_f_lib_mono.
+
+Theorem C08_deliver_f_main_stable : forall bad nd blk h b,
+  0 <= h <= lib_no nd -> main_at nd h = Some b -> main_at (fst (deliver_f bad nd blk)) h = Some b.
+Proof. exact deliver_f_main_stable. Qed.
+Print Assumptions C08_deliver_f_main_stable.
+
+(** Partial: as long as no reorganisation fails in the middle (invalid blocks only as children of
+    the best block), the LIB stays on the main chain. *)
+Theorem C08_lib_on_main_chain_partial_f : forall bad size self evs,
+  no_failed_reorg bad (init_node size self) evs ->
+  lib_on_main (run_f bad (init_node size self) evs) = true.
+Proof. exact lib_on_main_chain_partial_f. Qed.
+Print Assumptions C08_lib_on_main_chain_partial_f.
+
+(** Refuted in general (known finding F25): after a reorganisation that fails at block k the LIB
+    can be a block of the failed branch, and since nothing was saved it decreases at a restart. *)
+Theorem C08_lib_on_main_chain_failed_reorg_refuted :
+  exists bad size self evs, lib_on_main (run_f bad (init_node size self) evs) = false.
+Proof. exact lib_on_main_chain_failed_reorg_refuted. Qed.
+Print Assumptions C08_lib_on_main_chain_failed_reorg_refuted.
+
+Theorem C08_lib_monotone_failed_reorg_refuted :
+  exists bad size self evs,
+    lib_no (step_f bad (run_f bad (init_node size self) evs) FRestart) <
+    lib_no (run_f bad (init_node size self) evs).
+Proof. exact lib_monotone_failed_reorg_refuted. Qed.
+Print Assumptions C08_lib_monotone_failed_reorg_refuted.
 
 (** calcLIB: at least n' - (n'-1)/3 of the n' proposals are at or above the computed LIB. *)
 Theorem C08_lib_supported_by_two_thirds : forall p l,
@@ -216,6 +257,38 @@ Theorem C08_agreement_under_lock : forall parent u byz v1 v2 Q1 Q2,
 Proof. exact agreement_under_lock. Qed.
 Print Assumptions C08_agreement_under_lock.
 
+(** The three obstacles between C08_agreement_under_lock and the implementation are facts about
+    the code (each witness is also run on the real Status by the check):
+    (a) the 2/3 rule counts map entries, not producers; (b) PlibBy is not kept on the main chain;
+    (c) the lock is not a rule of the protocol. *)
+Theorem C08_lib_needs_two_thirds_of_producers_refuted :
+  exists size self evs,
+    4 <= size /\ Forall ev_ok evs /\ 0 < lib_no (run (init_node size self) evs) /\
+    (forall b, In (EDeliver b) evs -> k_bp b = 3).
+Proof. exact lib_needs_two_thirds_of_producers_refuted. Qed.
+Print Assumptions C08_lib_needs_two_thirds_of_producers_refuted.
+
+Theorem C08_plib_by_on_main_chain_refuted :
+  exists size self evs, Forall ev_ok evs /\ by_on_main (run (init_node size self) evs) = false.
+Proof. exact plib_by_on_main_chain_refuted. Qed.
+Print Assumptions C08_plib_by_on_main_chain_refuted.
+
+Theorem C08_lock_not_enforced :
+  exists w node p, prun (init_world 4 [3]) f14b_history = Some w /\ few_faults w = true /\
+    is_byz w p = false /\ is_byz w node = false /\ lock_broken w node p = true.
+Proof. exact lock_not_enforced. Qed.
+Print Assumptions C08_lock_not_enforced.
+
+(** LpbNo (the lpbNo the block factory starts from) covers every own block on the main chain in
+    every reachable node, so a correct producer's windows on its chain stay disjoint across
+    reorganisations and restarts. *)
+Theorem C08_lpb_covers_own_blocks : forall size self evs b,
+  Forall ev_ok2 evs ->
+  let nd := run (init_node size self) evs in
+  In b (nd_main nd) -> k_bp b = self -> k_no b <= ls_lpb (st_ls (nd_st nd)).
+Proof. exact lpb_covers_own_blocks. Qed.
+Print Assumptions C08_lpb_covers_own_blocks.
+
 (** * Block-producer election (bp/cluster.go around Status.Update) *)
 
 (** "The producer set a node uses is a function of its main chain" is FALSE of the code: GetRankers
@@ -231,6 +304,19 @@ Theorem C08_cluster_function_of_chain_refuted :
       m_cluster (mrun sto gen (minit_node sto gen self) evs).
 Proof. exact cluster_function_of_chain_refuted. Qed.
 Print Assumptions C08_cluster_function_of_chain_refuted.
+
+(** A weaker hypothesis does not suffice: even with BPCOUNT constant on the whole main chain, a
+    node that rolled forward across an election boundary while its in-memory BPCOUNT was still the
+    abandoned branch's value (parameters are reloaded only at the end of chain.reorg) has a
+    different producer set than a node with the same main chain that never saw that branch. *)
+Theorem C08_cluster_function_of_chain_main_const_refuted :
+  exists sto gen self evs1 evs2,
+    Forall ev_ok evs1 /\ Forall ev_ok evs2 /\
+    mn_main (mrun sto gen (minit_node sto gen self) evs1) = mn_main (mrun sto gen (minit_node sto gen self) evs2) /\
+    forallb (fun b => param sto (k_id b) =? 3) (mn_main (mrun sto gen (minit_node sto gen self) evs1)) = true /\
+    m_cluster (mrun sto gen (minit_node sto gen self) evs1) <> m_cluster (mrun sto gen (minit_node sto gen self) evs2).
+Proof. exact cluster_function_of_chain_main_const_refuted. Qed.
+Print Assumptions C08_cluster_function_of_chain_main_const_refuted.
 
 (** Partial: if BPCOUNT never changes (every state stores n0), then after any history (forks,
     reorganisations across election boundaries, vetoes, restarts) the installed producer set is the
